@@ -11,13 +11,14 @@ from . import common, gen, iotrace, model, rawread
 
 def gen_case(rnd):
     n = rnd.randint(4, 10)
-    specs = [['rnd', rnd.choice([40, 300, 1200, 5000]), rnd.randrange(1 << 24)] for _ in range(n)]  # unique random contents
+    specs = [[rnd.choice(['rnd', 'rnd', 'text']), rnd.choice([40, 300, 1200, 5000]), rnd.randrange(1 << 24)] for _ in range(n)]  # unique contents (random, or seeded text that deflates well)
     layout = [rnd.choice(['loose', 'packed', 'packedz', 'both', 'bothz']) for _ in specs]
     subset_kind = rnd.choice(['some', 'some', 'all', 'none', 'one', 'mixed-absent', 'repeated', 'only-absent'])
     return {'cfg': {'hash_type': rnd.choice(['sha1', 'sha256']), 'loose_prefix_len': rnd.choice([0, 2, 3]),
                     'compression_algorithm': f'zlib+{rnd.randrange(1, 10)}', 'pack_size_target': rnd.choice([700, 3000, 4 * 1024 ** 3])},
             'specs': specs, 'layout': layout, 'subset': subset_kind, 'dups': rnd.random() < 0.35,
-            'repack': rnd.choice(['keep', 'yes', 'no', 'auto', None]), 'pick_seed': rnd.randrange(1 << 20),
+            'repack': rnd.choice(['keep', 'keep', 'yes', 'no', 'auto', None]), 'pick_seed': rnd.randrange(1 << 20),
+            'in_sql_max': rnd.choice([1, 2, 3, 950, 950]),
             'delete_twice': rnd.random() < 0.2}
 
 
@@ -105,6 +106,9 @@ def run_one(case, base, counters):  # noqa: C901
         per_pack = {}
         for r in snap0.rows:
             per_pack.setdefault(str(r.pack_id), []).append(r)
+        if case.get('in_sql_max', 950) != 950:
+            cont._IN_SQL_MAX_LENGTH = case['in_sql_max']  # pylint: disable=protected-access  (several IN-batches even for a few keys)
+            counters['deletes-spanning-several-sql-batches'] += 1 if len(S) > case['in_sql_max'] else 0
         ret = cont.delete_objects(S)
         counters['deletes'] += 1
         if sorted(ret) != sorted(want):
